@@ -7,18 +7,18 @@ open AwsVerif.Heap
 def SwapClosed (P : PQ → Prop) : Prop :=
   ∀ q a b, a < q.items.size → b < q.items.size → P q → P (sSwap q a b)
 
-theorem pickFirst_cases (q : PQ) (root : Nat) :
-    pickFirst q root = root ∨ pickFirst q root = leftOf root ∨
-      (pickFirst q root = rightOf root ∧ rightOf root < q.items.size) := by
+theorem pickFirst_cases (c : Cmp) (q : PQ) (root : Nat) :
+    pickFirst c q root = root ∨ pickFirst c q root = leftOf root ∨
+      (pickFirst c q root = rightOf root ∧ rightOf root < q.items.size) := by
   unfold pickFirst
   grind
 
-theorem pickFirst_lt {q : PQ} {root : Nat} (hr : root < q.items.size) (hl : leftOf root < q.items.size) :
-    pickFirst q root < q.items.size := by
-  rcases pickFirst_cases q root with h | h | ⟨h, h'⟩ <;> rw [h] <;> assumption
+theorem pickFirst_lt {c : Cmp} {q : PQ} {root : Nat} (hr : root < q.items.size) (hl : leftOf root < q.items.size) :
+    pickFirst c q root < q.items.size := by
+  rcases pickFirst_cases c q root with h | h | ⟨h, h'⟩ <;> rw [h] <;> assumption
 
-theorem siftDown_ind {P : PQ → Prop} (hP : SwapClosed P) :
-    ∀ fuel q root, root < q.items.size → P q → P (siftDown fuel q root) := by
+theorem siftDown_ind {P : PQ → Prop} (hP : SwapClosed P) (c : Cmp) :
+    ∀ fuel q root, root < q.items.size → P q → P (siftDown c fuel q root) := by
   intro fuel
   induction fuel with
   | zero => intro q root _ h; exact h
@@ -28,13 +28,13 @@ theorem siftDown_ind {P : PQ → Prop} (hP : SwapClosed P) :
     split
     · next hl =>
       split
-      · have hf := pickFirst_lt hr hl
+      · have hf := pickFirst_lt (c := c) hr hl
         exact ih _ _ (by simpa using hf) (hP _ _ _ hf hr h)
       · exact h
     · exact h
 
-theorem siftUp_ind {P : PQ → Prop} (hP : SwapClosed P) :
-    ∀ fuel q index, index < q.items.size → P q → P (siftUp fuel q index).1 := by
+theorem siftUp_ind {P : PQ → Prop} (hP : SwapClosed P) (c : Cmp) :
+    ∀ fuel q index, index < q.items.size → P q → P (siftUp c fuel q index).1 := by
   intro fuel
   induction fuel with
   | zero => intro q index _ h; exact h
@@ -49,19 +49,19 @@ theorem siftUp_ind {P : PQ → Prop} (hP : SwapClosed P) :
       · exact h
     · exact h
 
-theorem siftEither_ind {P : PQ → Prop} (hP : SwapClosed P) (q : PQ) (index : Nat)
-    (hi : index < q.items.size) (h : P q) : P (siftEither q index) := by
+theorem siftEither_ind {P : PQ → Prop} (hP : SwapClosed P) (c : Cmp) (q : PQ) (index : Nat)
+    (hi : index < q.items.size) (h : P q) : P (siftEither c q index) := by
   unfold siftEither
   split
-  · exact siftDown_ind hP _ _ _ hi h
-  · have h1 := siftUp_ind hP (index + 1) q index hi h
-    have hs : (siftUp (index + 1) q index).1.items.size = q.items.size := by
+  · exact siftDown_ind hP c _ _ _ hi h
+  · have h1 := siftUp_ind hP c (index + 1) q index hi h
+    have hs : (siftUp c (index + 1) q index).1.items.size = q.items.size := by
       have := siftUp_ind (P := fun q' => q'.items.size = q.items.size)
-        (fun q' a b _ _ hq' => by simpa using hq') (index + 1) q index hi rfl
+        (fun q' a b _ _ hq' => by simpa using hq') c (index + 1) q index hi rfl
       exact this
     simp only
     split
-    · exact siftDown_ind hP _ _ _ (by omega) h1
+    · exact siftDown_ind hP c _ _ _ (by omega) h1
     · exact h1
 
 theorem swapClosed_same (q0 : PQ) : SwapClosed (fun q => Same q0 q) :=
@@ -75,21 +75,59 @@ theorem swapClosed_and {P Q : PQ → Prop} (hP : SwapClosed P) (hQ : SwapClosed 
 
 /-! ### heap order -/
 
-theorem heapOrd_iff (a : Array Elem) : HeapOrd a ↔ HeapOrdF (kAt a) a.size := Iff.rfl
+theorem heapOrd_iff (c : Cmp) (a : Array Elem) : HeapOrd c a ↔ HeapOrdF c (kAt a) a.size := Iff.rfl
 
-theorem pickFirst_spec {q : PQ} {r : Nat} (hr : r < 2^63 - 1) :
-    (pickFirst q r = r ∧ kAt q.items r ≤ kAt q.items (2 * r + 1) ∧
-        (2 * r + 2 < q.items.size → kAt q.items r ≤ kAt q.items (2 * r + 2))) ∨
-    ((pickFirst q r = 2 * r + 1 ∨ (pickFirst q r = 2 * r + 2 ∧ 2 * r + 2 < q.items.size)) ∧
-        kAt q.items (pickFirst q r) < kAt q.items r ∧
-        kAt q.items (pickFirst q r) ≤ kAt q.items (2 * r + 1) ∧
-        (2 * r + 2 < q.items.size → kAt q.items (pickFirst q r) ≤ kAt q.items (2 * r + 2))) := by
+theorem Cmp.gt_trans' {c : Cmp} (hc : CmpOK c) {x y z : Nat} (h1 : c.gt x y = true) (h2 : c.gt y z = true) :
+    c.gt x z = true := by
+  cases h : c.gt x z
+  · exfalso
+    have l1 : c.le x z := h
+    have l2 : c.le z y := Cmp.le_of_gt hc h2
+    have l3 := hc.trans _ _ _ l1 l2
+    unfold Cmp.le at l3; rw [h1] at l3; cases l3
+  · rfl
+
+theorem pickFirst_spec {c : Cmp} (hc : CmpOK c) {q : PQ} {r : Nat} (hr : r < 2^63 - 1) :
+    (pickFirst c q r = r ∧ c.le (kAt q.items r) (kAt q.items (2 * r + 1)) ∧
+        (2 * r + 2 < q.items.size → c.le (kAt q.items r) (kAt q.items (2 * r + 2)))) ∨
+    ((pickFirst c q r = 2 * r + 1 ∨ (pickFirst c q r = 2 * r + 2 ∧ 2 * r + 2 < q.items.size)) ∧
+        c.gt (kAt q.items r) (kAt q.items (pickFirst c q r)) = true ∧
+        c.le (kAt q.items (pickFirst c q r)) (kAt q.items (2 * r + 1)) ∧
+        (2 * r + 2 < q.items.size → c.le (kAt q.items (pickFirst c q r)) (kAt q.items (2 * r + 2)))) := by
   unfold pickFirst keyAt
   rw [leftOf_eq hr, rightOf_eq hr]
-  grind
+  dsimp only
+  by_cases g1 : c.gt (kAt q.items r) (kAt q.items (2 * r + 1)) = true
+  · rw [if_pos g1]
+    by_cases hrr : 2 * r + 2 < q.items.size
+    · rw [if_pos hrr]
+      by_cases g2 : c.gt (kAt q.items (2 * r + 1)) (kAt q.items (2 * r + 2)) = true
+      · rw [if_pos g2]
+        right
+        exact ⟨Or.inr ⟨rfl, hrr⟩, Cmp.gt_trans' hc g1 g2, Cmp.le_of_gt hc g2, fun _ => Cmp.le_refl hc _⟩
+      · rw [if_neg g2]
+        right
+        exact ⟨Or.inl rfl, g1, Cmp.le_refl hc _, fun _ => Cmp.le_of_not_gt g2⟩
+    · rw [if_neg hrr]
+      right
+      exact ⟨Or.inl rfl, g1, Cmp.le_refl hc _, fun h => absurd h hrr⟩
+  · rw [if_neg g1]
+    have l1 : c.le (kAt q.items r) (kAt q.items (2 * r + 1)) := Cmp.le_of_not_gt g1
+    by_cases hrr : 2 * r + 2 < q.items.size
+    · rw [if_pos hrr]
+      by_cases g2 : c.gt (kAt q.items r) (kAt q.items (2 * r + 2)) = true
+      · rw [if_pos g2]
+        right
+        exact ⟨Or.inr ⟨rfl, hrr⟩, g2, hc.trans _ _ _ (Cmp.le_of_gt hc g2) l1, fun _ => Cmp.le_refl hc _⟩
+      · rw [if_neg g2]
+        left
+        exact ⟨rfl, l1, fun _ => Cmp.le_of_not_gt g2⟩
+    · rw [if_neg hrr]
+      left
+      exact ⟨rfl, l1, fun h => absurd h hrr⟩
 
-theorem siftDown_heap : ∀ fuel (q : PQ) k, q.items.size < 2^63 → k < q.items.size → q.items.size - k ≤ fuel →
-    DownInvF (kAt q.items) q.items.size k → HeapOrd (siftDown fuel q k).items := by
+theorem siftDown_heap {c : Cmp} (hc : CmpOK c) : ∀ fuel (q : PQ) k, q.items.size < 2^63 → k < q.items.size → q.items.size - k ≤ fuel →
+    DownInvF c (kAt q.items) q.items.size k → HeapOrd c (siftDown c fuel q k).items := by
   intro fuel
   induction fuel with
   | zero => intro q k _ hk hf; omega
@@ -100,23 +138,22 @@ theorem siftDown_heap : ∀ fuel (q : PQ) k, q.items.size < 2^63 → k < q.items
     rw [leftOf_eq hk']
     split
     · next hl =>
-      rcases pickFirst_spec (q := q) hk' with ⟨he, h1, h2⟩ | ⟨hc, hlt, h1, h2⟩
+      rcases pickFirst_spec hc (q := q) hk' with ⟨he, h1, h2⟩ | ⟨hx, hlt, h1, h2⟩
       · simp only [he, ne_eq, not_true_eq_false, if_false]
         exact down_done hinv h1 h2
-      · have hne : pickFirst q k ≠ k := by omega
-        have hcn : pickFirst q k < q.items.size := by omega
+      · have hne : pickFirst c q k ≠ k := by omega
+        have hcn : pickFirst c q k < q.items.size := by omega
         simp only [hne, ne_eq, not_false_eq_true, if_true]
         apply ih
         · simpa using hsz
         · simpa using hcn
         · simp only [sSwap_size]; omega
         · rw [sSwap_items, kAt_swap hcn hk, Array.size_swapIfInBounds]
-          exact down_step hinv (by omega) hcn hlt (fun _ => h1) h2
-      
+          exact down_step hc hinv (by omega) hcn hlt (fun _ => h1) h2
     · next hl => exact down_done_nochild hinv (by omega)
 
-theorem siftUp_heap : ∀ fuel (q : PQ) k, k < q.items.size → k ≤ fuel →
-    UpInvF (kAt q.items) q.items.size k → HeapOrd (siftUp fuel q k).1.items := by
+theorem siftUp_heap {c : Cmp} (hc : CmpOK c) : ∀ fuel (q : PQ) k, k < q.items.size → k ≤ fuel →
+    UpInvF c (kAt q.items) q.items.size k → HeapOrd c (siftUp c fuel q k).1.items := by
   intro fuel
   induction fuel with
   | zero =>
@@ -136,24 +173,31 @@ theorem siftUp_heap : ∀ fuel (q : PQ) k, k < q.items.size → k ≤ fuel →
         · simpa using hp
         · omega
         · rw [sSwap_items, kAt_swap hk hp, Array.size_swapIfInBounds]
-          exact up_step hinv (by omega) hk hgt
+          exact up_step hc hinv (by omega) hk hgt
       · next hle =>
-        show HeapOrd q.items
-        exact up_done hinv (Or.inr (by unfold keyAt at hle; omega))
+        show HeapOrd c q.items
+        exact up_done hinv (Or.inr (Cmp.le_of_not_gt hle))
     · next h0 =>
-      show HeapOrd q.items
+      show HeapOrd c q.items
       exact up_done hinv (Or.inl (by omega))
 
-theorem siftUp_not_moved {fuel : Nat} {q : PQ} {k : Nat} (h : (siftUp (fuel + 1) q k).2 = false) :
-    (siftUp (fuel + 1) q k).1 = q ∧ (k = 0 ∨ kAt q.items ((k - 1) / 2) ≤ kAt q.items k) := by
+theorem siftUp_not_moved {c : Cmp} {fuel : Nat} {q : PQ} {k : Nat} (h : (siftUp c (fuel + 1) q k).2 = false) :
+    (siftUp c (fuel + 1) q k).1 = q ∧ (k = 0 ∨ c.le (kAt q.items ((k - 1) / 2)) (kAt q.items k)) := by
   unfold siftUp at h ⊢
   dsimp only at h ⊢
   rw [parentOf_eq] at h ⊢
   unfold keyAt at h ⊢
-  grind
+  by_cases h0 : k ≠ 0
+  · rw [if_pos h0] at h ⊢
+    by_cases hg : c.gt (kAt q.items ((k - 1) / 2)) (kAt q.items k) = true
+    · rw [if_pos hg] at h; cases h
+    · rw [if_neg hg]
+      exact ⟨rfl, Or.inr (Cmp.le_of_not_gt hg)⟩
+  · rw [if_neg h0]
+    exact ⟨rfl, Or.inl (by omega)⟩
 
-theorem siftUp_moved {fuel : Nat} {q : PQ} {k : Nat} (h : (siftUp fuel q k).2 = true) :
-    0 < k ∧ kAt q.items k < kAt q.items ((k - 1) / 2) := by
+theorem siftUp_moved {c : Cmp} {fuel : Nat} {q : PQ} {k : Nat} (h : (siftUp c fuel q k).2 = true) :
+    0 < k ∧ c.gt (kAt q.items ((k - 1) / 2)) (kAt q.items k) = true := by
   cases fuel with
   | zero => simp [siftUp] at h
   | succ f =>
@@ -161,21 +205,26 @@ theorem siftUp_moved {fuel : Nat} {q : PQ} {k : Nat} (h : (siftUp fuel q k).2 = 
     dsimp only at h
     rw [parentOf_eq] at h
     unfold keyAt at h
-    grind
+    by_cases h0 : k ≠ 0
+    · rw [if_pos h0] at h
+      by_cases hg : c.gt (kAt q.items ((k - 1) / 2)) (kAt q.items k) = true
+      · exact ⟨by omega, hg⟩
+      · rw [if_neg hg] at h; cases h
+    · rw [if_neg h0] at h; cases h
 
-theorem siftEither_heap {q : PQ} {k : Nat} (hsz : q.items.size < 2^63) (hk : k < q.items.size)
-    (hinv : EitherInvF (kAt q.items) q.items.size k) : HeapOrd (siftEither q k).items := by
+theorem siftEither_heap {c : Cmp} (hc : CmpOK c) {q : PQ} {k : Nat} (hsz : q.items.size < 2^63) (hk : k < q.items.size)
+    (hinv : EitherInvF c (kAt q.items) q.items.size k) : HeapOrd c (siftEither c q k).items := by
   unfold siftEither
   split
-  · next h0 => exact siftDown_heap _ _ _ hsz hk (by omega) (either_down hinv (Or.inl h0))
+  · next h0 => exact siftDown_heap hc _ _ _ hsz hk (by omega) (either_down hinv (Or.inl h0))
   · next h0 =>
     dsimp only
-    cases hm : (siftUp (k + 1) q k).2
+    cases hm : (siftUp c (k + 1) q k).2
     · obtain ⟨he, hle⟩ := siftUp_not_moved hm
       simp only [Bool.not_false, if_true, he]
-      exact siftDown_heap _ _ _ hsz hk (by omega) (either_down hinv hle)
+      exact siftDown_heap hc _ _ _ hsz hk (by omega) (either_down hinv hle)
     · obtain ⟨hpos, hlt⟩ := siftUp_moved hm
       simp only [Bool.not_true, Bool.false_eq_true, if_false]
-      exact siftUp_heap _ _ _ hk (by omega) (either_up hinv hpos hlt)
+      exact siftUp_heap hc _ _ _ hk (by omega) (either_up hc hinv hpos hlt)
 
 end AwsVerif.Proofs.C06
